@@ -16,6 +16,8 @@ LIT_PIECES = ['a', 'b', 'ab', 'abc', 'c', '/', '/', '/', '/', '1', '12', '-', '.
 NAMES = ['a', 'b', 'c', 'id', 'name', 'x', 'y', 'pth', 'user_1', '_p', 'N']
 RE_POOL = ['to.', '[a-c]+', r'\d{2}', '[^/]+', 'pro.+?(?=l)', '(?:ab)+', 'a|ab', '[0-9a-f]{1,3}', '.+', 'a*',
            r'-?\d+', r'-?\d+(\.\d+)?', r'\d+',
+           # capturing groups that cover a part of the match, the whole match, repeat, or do not take part: the wildcard is bound to the whole match
+           r'v(\d+)', r'[a-z]+(-draft)?', r'(en|de|fr)', r'(ab)+', r'(a)(b)?c', r'(?P<y>\d{4})-\d\d',
            # assertions that look at the text around the cursor: each wildcard's expression sees its own text from the cursor on, nothing before it
            r'^[a-z]+$', r'\B\d+', r'(?<![a-z])\d+', r'\bto.', r'^\d+', r'[a-z]+\b', r'\A[a-c]+']      # the last three are spelled like the masks of the int / float filters (but convert nothing)
 
@@ -26,6 +28,8 @@ RE_VALUES = {'to.': ['tom', 'tos', 'to/', 'tok'], '[a-c]+': ['abc', 'ab', 'a', '
 
 
 REX_POOL = [(r'(a\d+)|(b\d+)', 1), (r'(a\d+)|(b\d+)', 2), ('(png)|(jpg)', 1), ('(png)|(jpg)', 2), ('(x+)|(y+)|(z+)', 3), ('(to.)|(ab)', 1)]
+RE_VALUES.update({r'v(\d+)': ['v12', 'v0'], r'[a-z]+(-draft)?': ['spec-draft', 'spec', 'a-draft'], r'(en|de|fr)': ['en', 'fr'], r'(ab)+': ['ab', 'ababab'],
+                  r'(a)(b)?c': ['ac', 'abc'], r'(?P<y>\d{4})-\d\d': ['2024-05']})
 RE_VALUES.update({r'^[a-z]+$': ['bob', 'tom'], r'\B\d+': ['12', '7'], r'(?<![a-z])\d+': ['12', '007'], r'\bto.': ['tom', 'to/'], r'^\d+': ['42'], r'[a-z]+\b': ['tom', 'ab'],
                   r'\A[a-c]+': ['abc', 'a'], r'(a\d+)|(b\d+)': ['a1', 'b22', 'a07'], '(png)|(jpg)': ['png', 'jpg'], '(x+)|(y+)|(z+)': ['x', 'yy', 'zzz'], '(to.)|(ab)': ['tom', 'ab']})
 
